@@ -801,8 +801,9 @@ func (w *verifC18) deliver(e *verifSigned, why string) {
 type verifDelivered struct {
 	d           asserts.Assertion
 	how         string
-	exact, same *verifSigned
-	sigDec      []byte
+	exact  *verifSigned
+	same   []*verifSigned
+	sigDec []byte
 	bk          string
 }
 
@@ -917,8 +918,9 @@ func (w *verifC18) judge(v *verifView, dl *verifDelivered, op string, err error)
 			return
 		}
 		w.accepted++
-		if same != nil {
-			if framing, where := verifFramingOnly(same.sigDec, dec); framing {
+		for _, same := range same {
+			framing, where := verifFramingOnly(same.sigDec, dec)
+			if framing {
 				c.Count("probe:reframed-signature-accepted")
 				c.Count("accepted-reframing:" + strings.SplitN(how, "@", 2)[0])
 				if op == "add" {
@@ -933,8 +935,8 @@ func (w *verifC18) judge(v *verifView, dl *verifDelivered, op string, err error)
 		}
 		if c.Active("C18") {
 			what := "content never signed"
-			if same != nil {
-				what = "content of " + same.label + " with a different signature"
+			if len(same) > 0 {
+				what = "content of " + same[0].label + " with a different signature"
 			}
 			c.Violate("C18/altered-accepted", "%s: %s accepted a delivery that was altered in transit (%s; %s)", v.name, op, how, what)
 		}
@@ -1077,9 +1079,9 @@ func (w *verifC18) findStored() {
 		}
 		content, sig := got.Signature()
 		dec, _ := verifDecodeSig(sig)
-		if v.wasFramed(verifBytesKey(content, dec)) {
+		if v.wasFramed(verifBytesKey(content, dec)) && len(same) > 0 {
 			if c.Active("C18") {
-				c.Violate(verifF4Class, "%s: Find returns the re-framed encoding of %s that Add accepted earlier", v.name, same.label)
+				c.Violate(verifF4Class, "%s: Find returns the re-framed encoding of %s that Add accepted earlier", v.name, same[0].label)
 			}
 			continue
 		}
